@@ -297,6 +297,31 @@ pub mod simsync {
             }
             Ok(guard)
         }
+        /// `Condvar::wait_while`: waits until the condition is false (loop over `wait`, as std does)
+        pub fn wait_while<'a, T: Observable, F>(&self, mut guard: MutexGuard<'a, T>, mut condition: F) -> LockResult<MutexGuard<'a, T>>
+        where
+            F: FnMut(&mut T) -> bool,
+        {
+            while condition(&mut *guard) {
+                guard = self.wait(guard)?;
+            }
+            Ok(guard)
+        }
+        /// `notify_all` wakes every sleeper (each still has to re-acquire the mutex)
+        pub fn notify_all(&self) {
+            let (s, me) = ctx();
+            let _ = s.yield_op(me, Pending::Notify, false, |g| {
+                g.victim[me].take();
+                let sleepers: Vec<usize> = (0..g.pending.len()).filter(|&u| g.pending[u] == Pending::Sleeping).collect();
+                if sleepers.is_empty() {
+                    g.trace.push(format!("N{me}:-"));
+                }
+                for u in sleepers {
+                    g.pending[u] = Pending::Relock;
+                    g.trace.push(format!("N{me}:{u}"));
+                }
+            });
+        }
         pub fn notify_one(&self) {
             let (s, me) = ctx();
             let _ = s.yield_op(me, Pending::Notify, false, |g| {
